@@ -1,5 +1,5 @@
 import sys, datetime, tempfile, os, random
-sys.path.insert(0, "/repo")
+sys.path.insert(0, (sys.argv[1] if len(sys.argv) > 1 else __import__("os").environ.get("PYVC_REPO", "/repo")))
 import numpy as np
 import twosigma.memento as m
 from twosigma.memento.metadata import Memento, InvocationMetadata, ResultType
